@@ -454,6 +454,15 @@ def gen_world(src, profile):
                     c.setdefault("prepare_item", {})[a["name"]] = src.pick(ITEM_PREPARERS[elem_type(T)[0]])
             if (c.get("prepare") or c.get("prepare_item")) and src.chance(1, 3) and "prepare_style" not in c:
                 c["prepare_style"] = "decorator"  # registered through `@<attr>.preparer` where the attribute is declared with Attr(...)
+        if has_parent and src.chance(1, 5):
+            # M overrides (or introduces) the `_prepare_<attr>` / `_prepare_<singular>` hook of an attribute it merely inherits
+            pdesc = next(c for c in world["classes"] if c["name"] == "P")
+            a = src.pick(p_attrs)
+            T = a["type"]
+            if T[0] in PREPARERS and len(PREPARERS[T[0]]) > 1 and a["name"] not in mdesc.get("prepare", {}):
+                mdesc.setdefault("prepare", {})[a["name"]] = next(p for p in PREPARERS[T[0]] if p != (pdesc.get("prepare") or {}).get(a["name"]))
+            elif is_collection(T) and elem_type(T)[0] == "int" and a["name"] not in mdesc.get("prepare_item", {}):
+                mdesc.setdefault("prepare_item", {})[a["name"]] = "neg_abs" if (pdesc.get("prepare_item") or {}).get(a["name"]) == "abs" else "abs"
 
     inst = "M"
     if profile.get("inheritance", True):
@@ -828,6 +837,8 @@ def apply_preparer(how, v):
         return abs(v) if isinstance(v, (int, float)) and not isinstance(v, bool) else v
     if how == "strip":
         return v.strip() if isinstance(v, str) else v
+    if how == "neg_abs":
+        return -abs(v) if isinstance(v, (int, float)) and not isinstance(v, bool) else v
     if how == "upper":
         return v.upper() if isinstance(v, str) else v
     if how == "floor":
